@@ -36,11 +36,11 @@ PLAN = {
     "identifier": ("aB1-._é \u212a", 5, 6),
     "dotted-name": ("aB1-._é", 5, 6),
     "dotted-suffix": ("aB1-._é", 5, 6),
-    "boolean": ("onfONyes ", 4, 5),
+    "boolean": ("onfONyes \u017f", 4, 5),                # long s: casefold() makes it 's', lower() does not
     "integer": ("0179-+_ a", 4, 5),
     "port-number": ("03569-+_ ", 5, 6),
     "byte-size": ("10kmgbKB- ", 4, 5),
-    "time-interval": ("10smhdS-x", 4, 5),
+    "time-interval": ("10smhdS-x\u017f", 4, 5),
     "string-list": ("ab \t", 5, 7),
     "inet-address": ("aB1:[].6 ", 4, 5),
     "inet-binding-address": ("aB1:[].6 ", 4, 5),
@@ -52,6 +52,30 @@ PLAN = {
     "string": ("a $é", 3, 3),
     "null": ("a $é", 3, 3),
 }
+# representative strings beyond the enumeration bound (still run through the specification by TLC)
+EXTRA = {
+    "ipaddr-or-hostname": ["1:2:3:4:5:6:7::", "::2:3:4:5:6:7:8", "1:2:3:4:5:6:7:8", "1:2:3:4:5:6:7:8:9", "2001:DB8:1:2:3:4:5::",
+                           "fe80::1:2:3:4", "::ffff:1.2.3.4", "1::2::3", "12345::", "255.255.255.255", "256.1.1.1",
+                           "1.2.3.4.5", "host-name.Example.COM", "a.b.c.d.e.f.g", "-leading.dash", "trailing.dot.",
+                           "under_score.ok", "1.2.3", "01.2.3.4", "1.2.3.04", ":::", "::1::", "g::1"],
+    "port-number": ["65535", "65536", "000080", "+65535", "-0", "6_5_5", " 80 ", "99999999999999999999"],
+    "byte-size": ["1024KB", "12gB", "007mb", "4294967296", "1kbkb", "1 kb", "-5MB", "1_0kb", "12bk", "9999999999999gb"],
+    "time-interval": ["86400", "36h", "7D", "1d1", "12ms", "0s", "-3m", "1_0m", "5 m", "99999999999d"],
+    "integer": ["123456789012345678901234567890", "-000", "+1_000", "1__0", "_1", "1_", " 12\t", "0x1f", "1e3"],
+    "inet-address": ["[::1]:80", "[fe80::1]:8080", "[::1]", "[::1]:", "[::1]:99999", "Host.Example:443", "host:", ":8080",
+                     "1.2.3.4:80", "::1", "fe80::1", "[FE80::A]:1", "host:80:90", "[host]:80", "[]:80", "[::1]x:80"],
+    "inet-binding-address": ["[::1]:80", ":8080", "8080", "Host:1", "[FE80::A]:1", "::"],
+    "inet-connection-address": ["[::1]:80", ":8080", "8080", "Host:1", "[FE80::A]:1", "::"],
+    "socket-address": ["/var/run/x.sock", "relative/path", "[::1]:80", "1.2.3.4:80", "Host:80", "8080", "fe80::1"],
+    "boolean": ["yes", "YES", "tRuE", "off", "0", "1", "y", "yess", " on", "fal\u017fe", "ye\u017f"],
+    "timedelta": ["1w2d3h4m5s", "1.5h", "2d 3h", "1w 1w", "5x", "3", "1e1s", "h", "-1d", "1d2d", "1S", "4m3w"],
+    "identifier": ["a" * 40, "_" * 20 + "1", "A1b2C3d4e5", "caf\u00e9", "x\u212a"],
+    "basic-key": ["a" * 40, "a-b.c_d-e.f", "Z9.-_", "x\u212a", "\u212a1"],
+    "dotted-name": ["a.b.c.d.e.f.g.h", "a..b", "a.b.", ".a.b", "a.1b", "A_1.B_2"],
+    "dotted-suffix": [".a.b.c.d", "a.b.c.d", "..a", ".a..b", ".a.", ".1a"],
+}
+
+
 REGEX_KINDS = {"basic-key": "basic-key", "identifier": "identifier", "dotted-name": "dotted-name",
                "dotted-suffix": "dotted-suffix"}
 
@@ -71,7 +95,7 @@ def strings(alpha, n):
 def env_sets(alpha, n, dt):
     v6, fl = set(), set()
     if dt == "ipaddr-or-hostname":
-        for s in strings(alpha, n):
+        for s in itertools.chain(strings(alpha, n), EXTRA.get(dt, [])):
             if ":" in s:
                 try:
                     socket.inet_pton(socket.AF_INET6, s.lower())
@@ -79,7 +103,9 @@ def env_sets(alpha, n, dt):
                 except (OSError, ValueError):
                     pass
     if dt == "timedelta":
-        for s in strings(alpha, n):
+        import re as _re
+        extra_nums = {m for x in EXTRA.get(dt, []) for m in _re.findall(r"[-+0-9.eE_ ]+", x)} | set(EXTRA.get(dt, []))
+        for s in itertools.chain(strings(alpha, n), extra_nums):
             try:
                 float(s)
                 fl.add(s)
@@ -319,6 +345,7 @@ def run(chk):
         bounds[dt] = n
         v6, fl = env_sets(alpha, n, dt)
         gen = ("Alphabet == " + tlc.tla_value({enc_char(c) for c in alpha}) + "\n"
+               "ExtraStrings == " + tlc.tla_value({tuple(enc_char(c) for c in x) for x in EXTRA.get(dt, []) if x}).replace("<<>>", "<< >>") + "\n"
                "MCValidV6 == " + tlc.tla_value(v6 or {"~none~"}) + "\n"
                "MCFloatOK == " + tlc.tla_value(fl or {"~none~"}) + "\n"
                "MCExtSpace == {}\nMCExtLower == " + (tlc.tla_value(ext_lower(alpha)) if ext_lower(alpha)
